@@ -260,7 +260,9 @@ func ckksEncoderTarget() *Target {
 		n string
 		s ptSpec
 	}{{"batched", ptSpec{Batched: true, NTT: true}}, {"batched/sparse+scale+level", ptSpec{Batched: true, NTT: true, DLevel: -1, LogS: 33, Cols: 2}},
-		{"coeffs", ptSpec{Batched: false, NTT: true, LogS: 35}}}
+		{"coeffs", ptSpec{Batched: false, NTT: true, LogS: 35}},
+		// scale beyond the 53 bits of a float64 mantissa: distinguishes the default from the arbitrary-precision encoder
+		{"batched/scale=2^70", ptSpec{Batched: true, NTT: true, LogS: 70}}}
 	var encK, decK []Kind
 	for _, sp := range specs {
 		for _, v := range vks {
